@@ -6,7 +6,7 @@ import re
 
 
 def _param_node(rec, clause):
-    m = re.match(r"C(?:14|05|10|02)\.(?:sym|rule|kernel)\.(?:Torch)?([A-Za-z]+)", rec["id"])
+    m = re.match(r"C(?:14|05|10|02|12)\.(?:sym|rule|kernel)\.(?:Torch)?([A-Za-z]+)", rec["id"])
     name = m.group(1)
     model = (clause.get("model") or {}).get("inputs", {})
     return ("import sys, json\nfrom native.replay_lib import replay_param_node\n"
@@ -35,7 +35,7 @@ def _fold_settings(rec, clause):
 
 
 def _outer_reduce(rec, clause):
-    m = re.match(r"C02\.opt\.outer_reduce_flatten\.rank(\d)\.o(\d)\.r(\d)", rec["id"])
+    m = re.match(r"C0[234]\.opt\.outer_reduce_flatten\.rank(\d)\.o(\d)\.r(\d)", rec["id"])
     model = (clause.get("model") or {}).get("inputs", {})
     return ("import sys, json\nfrom native.replay_lib import replay_outer_reduce_flatten\n"
             f"sys.exit(replay_outer_reduce_flatten({m.group(1)}, {m.group(2)}, {m.group(3)}, json.loads({json.dumps(json.dumps(model, default=str))})))\n")
@@ -45,13 +45,22 @@ def _c18(rec, clause):
     return f"import sys\nfrom native.replay_c18 import main\nsys.exit(main({rec['id']!r}))\n"
 
 
+def _frame(rec, clause):
+    """a value remembered by an evaluation method shows up as a stale output after an in-place update: the frozen-tensor
+    scenario of the C19 stand-in is the native witness"""
+    return ("import sys, importlib\nmod = importlib.import_module('native.bounded.C19')\n"
+            "res = mod.run('quick', 0).to_json()\nhits = [f for f in res['failures'] if 'frozen' in str(f['case'])]\n"
+            "for f in hits:\n    print('FAILING INPUT', f['case'], '::', f['what'])\nsys.exit(1 if hits else 0)\n")
+
+
 GENERATORS = [
+    (re.compile(r"^C(19|10)\.frame\."), _frame),
     (re.compile(r"^C18\."), _c18),
-    (re.compile(r"^C02\.opt\.outer_reduce_flatten"), _outer_reduce),
-    (re.compile(r"^C0[26]\.fold_settings\."), _fold_settings),
+    (re.compile(r"^C0[234]\.opt\.outer_reduce_flatten"), _outer_reduce),
+    (re.compile(r"^C(02|06|14|17)\.fold_settings\."), _fold_settings),
     (re.compile(r"^C(03|04|05|07)\.rule\."), _rule),
     (re.compile(r"^C05\.Scope\.__iter__"), _scope_iter),
-    (re.compile(r"^C(14|05)\.(sym|rule|kernel)\.(?!TensorParameter|ReferenceParameter|mixing_weight_factory|TorchMatMul|TorchFlatten)"), _param_node),
+    (re.compile(r"^C(14|05|12)\.(sym|rule|kernel)\.(?!TensorParameter|ReferenceParameter|mixing_weight_factory|TorchMatMul|TorchFlatten)"), _param_node),
 ]
 
 
